@@ -76,16 +76,24 @@ def ground(name: str, moddir: str) -> dict:
             branches.setdefault((code, src), set()).add(bool(dst != ci.nxt[src]))
         return None
 
+    raised = [0]
+
+    def on_raise(code, off, exc):
+        if code.co_filename == fname:
+            raised[0] += 1
+
     mon.register_callback(tool, mon.events.LINE, on_line)
     mon.register_callback(tool, mon.events.BRANCH, on_branch)
+    mon.register_callback(tool, mon.events.RAISE, on_raise)
     per_x = []
     fn = getattr(mod, name)
     try:
         for x in INPUTS:
             lines.clear()
             branches.clear()
+            raised[0] = 0
             mon.restart_events()
-            mon.set_events(tool, mon.events.LINE | mon.events.BRANCH)
+            mon.set_events(tool, mon.events.LINE | mon.events.BRANCH | mon.events.RAISE)
             try:
                 obs = idioms._observe(fn, x)  # noqa: SLF001
             finally:
@@ -98,8 +106,9 @@ def ground(name: str, moddir: str) -> dict:
                     if tv is not None:
                         out.setdefault(ins.positions.lineno or 0, set()).add(tv)
             per_x.append({"lines": sorted(lines), "out": sorted([ln, sorted(v)] for ln, v in out.items()),
-                          "obs": obs})
+                          "obs": obs, "raised": raised[0] > 0})
     finally:
+        mon.register_callback(tool, mon.events.RAISE, None)
         mon.register_callback(tool, mon.events.LINE, None)
         mon.register_callback(tool, mon.events.BRANCH, None)
         mon.free_tool_id(tool)
@@ -145,14 +154,32 @@ def _child(conn, names, metrics, moddir):
                 conn.send((name, {"ok": False, "error": f"{type(ex).__name__}: {ex}"[:300]}))
                 continue
             tracer = sp.instrumentation_tracer
-            per_x = []
+            per_x, traces = [], []
             with tracer:
                 tracer.init_trace()
                 import_lines = {ln or 0 for ln in sp.lineids_to_linenos(tracer.import_trace.covered_line_ids)}
                 for x in INPUTS:
                     tracer.init_trace()
                     obs = idioms._observe(getattr(mod, name), x)  # noqa: SLF001
-                    per_x.append({**_project(sp, tracer.get_trace(), import_lines), "obs": obs})
+                    traces.append(tracer.get_trace())
+                    per_x.append({**_project(sp, traces[-1], import_lines), "obs": obs,
+                                  "enabled_after": not tracer.is_disabled()})
+            # suite-level analysis of the cached results (ga/fitness_metrics.analyze_results), in both
+            # orders, must neither change the individual results nor invent anything
+            import pynguin.ga.fitness_metrics as ff  # noqa: PLC0415
+            from pynguin.testcase.execution import ExecutionResult  # noqa: PLC0415
+
+            results = []
+            for tr in traces:
+                res = ExecutionResult()
+                res.execution_trace = tr
+                results.append(res)
+            merged = _project(sp, ff.analyze_results(results), import_lines)
+            ff.analyze_results(results[::-1])
+            for px, tr in zip(per_x, traces):
+                again = _project(sp, tr, import_lines)
+                px["lines_after"], px["out_after"] = again["lines"], again["out"]
+                px["merged_lines"] = merged["lines"]
             npreds: dict = {}
             for meta in sp.existing_predicates.values():
                 npreds[meta.line_no or 0] = npreds.get(meta.line_no or 0, 0) + 1
